@@ -176,10 +176,9 @@ Section Interp.
     | _ => rank
     end.
 
-  (* one iteration of the main loop; the bool says "break" *)
-  Definition fstep (h : hist) (lower upper : ext) (b : bucket) (s : fstate) : fstate * bool :=
-    let count := fs_count s + bc b in
-    let rank := fs_rank s in
+  (* the zero-bucket bound adjustment of HistogramFraction (applied to any bucket with
+     Lower <= 0 <= Upper, custom buckets included) and whether to interpolate linearly *)
+  Definition fadjust (h : hist) (b : bucket) : ext * ext * bool :=
     let zb := ext_leb (bl b) (Fin 0) && ext_leb (Fin 0) (bu b) in
     let '(l, u) :=
       if zb then
@@ -187,7 +186,13 @@ Section Interp.
         else if negb (h_haspos h) && h_hasneg h then (bl b, Fin 0)
         else (bl b, bu b)
       else (bl b, bu b) in
-    let lineark := h_custom h || zb in
+    (l, u, h_custom h || zb).
+
+  (* one iteration of the main loop; the bool says "break" *)
+  Definition fstep (h : hist) (lower upper : ext) (b : bucket) (s : fstate) : fstate * bool :=
+    let count := fs_count s + bc b in
+    let rank := fs_rank s in
+    let '(l, u, lineark) := fadjust h b in
     let '(lrank, lset) :=
       if negb (fs_lset s) && ext_leb lower l then (rank, true) else (fs_lrank s, fs_lset s) in
     let '(urank, uset) :=
